@@ -1031,7 +1031,7 @@ func classifyAbsent(height int, q felt.Felt, keys []felt.Felt) (a, b, lcp int) {
 }
 
 func TestPropTrieProofs(t *testing.T) {
-	stats.Check(t, stats.Budget{Quick: 1500, Thorough: 20000},
+	stats.Check(t, stats.Budget{Quick: 3000, Thorough: 20000},
 		"key/value sets (height 251: universe stems or dense low-bit subtrees with branches; height 8/3: exhaustive key space; Pedersen/Poseidon) on core/trie (committed, optionally reopened) and core/trie2 (fresh/hashed/persisted+reopened); queried keys present / pool / present-with-one-bit-flipped at a drawn depth / boundary; completeness vs ref.MPT root and an independent walker; then single corruptions of (root,key,proof) with the semantic oracle 'accepted => value == model[key]'; non-trivial = an absent key diverging strictly inside an edge was proven, or a shape-preserving (hash/value-only) corruption was evaluated",
 		func(rt *rapid.T, c *stats.Case) {
 			height := rapid.SampledFrom([]int{251, 251, 251, 251, 8, 3}).Draw(rt, "height")
